@@ -139,7 +139,10 @@ impl Check for C06 {
         if tier == "B" {
             net = crate::tierb::calm_net(&mut g);
         }
-        json!({"net": net, "tier": tier, "case": gen_case(&mut g, idx / if tier == "B" { 8 } else { 1 }), "target_port": g.range(1, 65_535)})
+        json!({"net": net, "tier": tier, "case": gen_case(&mut g, idx / if tier == "B" { 8 } else { 1 }), "target_port": g.range(1, 65_535),
+            // Tier B: a peer that has sent only part of a preamble (or nothing) falls silent for a while and then
+            // sends a well-formed session start, frame aligned
+            "resume_after_ms": if tier == "B" && g.chance(40) { *g.pick(&[3_000u64, 11_000, 31_000, 125_000]) } else { 0 }, "resume_cut": g.range(0, 40)})
     }
     fn horizon(&self, _p: &Value) -> Duration {
         Duration::from_secs(3_000)
